@@ -119,7 +119,8 @@ def augmentPass (reg : Registry) : (fuel : Nat) → (mods : Array Nat) → (i : 
       else augmentPass reg fuel mods (i + 1) (processed + p) s
     else (mods, processed, s)
 
-/-- Go: `for len(mods) > 0 { … if processed == 0 { break } }`. -/
+/-- Go: `for len(mods) > 0 { … if processed == 0 { break } }` — the closure `augmentLoop` of
+`Modules.Process` (its result, the number of augments applied, is in `augmentLoopN` below). -/
 def augmentLoop (reg : Registry) : (fuel : Nat) → Array Nat → PState → Array Nat × PState
   | 0, mods, s => (mods, s)
   | fuel + 1, mods, s =>
@@ -260,12 +261,42 @@ structure Outcome where
   forest : Forest
   reg : Registry
 
-/-- Go: `Modules.Process` from the augment loop to the second `FixChoice`: the loop, FixChoice
-everywhere, the leftover augments (now with errors; an augment into an implied case only becomes
-applicable at this point), and FixChoice again when one of them was applied. -/
+/-- Go: the closure `augmentLoop` of `Modules.Process` with its result: `augmentLoop` together with
+the number of augments it applied (the sum of `processed` over the productive passes). -/
+def augmentLoopN (reg : Registry) : (fuel : Nat) → Array Nat → PState → Array Nat × PState × Nat
+  | 0, mods, s => (mods, s, 0)
+  | fuel + 1, mods, s =>
+    if mods.isEmpty then (mods, s, 0) else
+    let (mods, processed, s) := augmentPass reg (mods.size + 1) mods 0 0 s
+    if processed == 0 then (mods, s, 0) else
+    let (mods, s, applied) := augmentLoopN reg fuel mods s
+    (mods, s, processed + applied)
+
+/-- Go: `for augmentLoop() > 0 { fixChoice() }` — the retry rounds after the first `FixChoice`: the
+modules that still hold pending augments are retried (an augment whose target is the implied case
+of a choice only becomes applicable once that case exists, and may create the target of another
+one); when a round applied something, `FixChoice` runs everywhere and the rest is retried again.
+`n` bounds the number of rounds: every productive round removes at least one pending augment, so
+(number of pending augments + 1) rounds reach the round that applies nothing. -/
+def leftoverRounds (reg : Registry) (fuel : Nat) : (n : Nat) → Array Nat → PState → Array Nat × PState
+  | 0, mods, s => (mods, s)
+  | n + 1, mods, s =>
+    let (mods, s, applied) := augmentLoopN reg fuel mods s
+    if applied == 0 then (mods, s) else
+    leftoverRounds reg fuel n mods
+      { s with forest := { trees := s.forest.trees.map fun (i, e) => (i, fixChoice e) } }
+
+/-- Go: `Modules.Process` from the augment loop to the last `FixChoice`: the loop, FixChoice
+everywhere, the retry rounds (`leftoverRounds`: a fixpoint, so the outcome does not depend on the
+order in which the remaining modules are visited), the reporting sweep over what is still pending
+(now with errors; nothing that a retry could have applied is left), and FixChoice again should the
+sweep have applied something.  `fuel` bounds the passes of each loop and the number of rounds
+(every productive pass, and every productive round, removes at least one pending augment; the
+caller passes the number of pending augments + 2). -/
 def augmentPhase (reg : Registry) (order : List Nat) (fuel : Nat) (s : PState) : PState :=
   let (left, s) := augmentLoop reg fuel order.toArray s
   let s := { s with forest := { trees := s.forest.trees.map fun (i, e) => (i, fixChoice e) } }
+  let (left, s) := leftoverRounds reg fuel fuel left s
   let (s, applied) := left.foldl (fun (acc : PState × Nat) id =>
     let (s, p, _) := augmentTree reg id true acc.1
     (s, acc.2 + p)) (s, 0)
